@@ -142,7 +142,11 @@ def _sender_rule(rep, fn, file, label, keyexpr):
     if ok:
         ok = is_self_attr(dk[0].args[1], "_side")
         ph_k, ph_m = dk[0].args[2], add[0].args[0]
-        ok = ok and isinstance(ph_k, ast.Name) and isinstance(ph_m, ast.Name) and ph_k.id == ph_m.id and len(local_defs(fn, ph_k.id)) <= 1
+        ek, em = expand(fn, ph_k), expand(fn, ph_m)
+        # one phase value for key and label: the same parameter / once-bound local, or the same literal
+        ok = ok and same_expr(ek, em) and (
+            (isinstance(ph_k, ast.Name) and isinstance(ph_m, ast.Name) and ph_k.id == ph_m.id and len(local_defs(fn, ph_k.id)) <= 1)
+            or (isinstance(ek, ast.Constant) and isinstance(ek.value, str)))
         if keyexpr:
             ok = ok and dotted(dk[0].args[0]) == keyexpr
         body = expand(fn, add[0].args[1])
